@@ -297,7 +297,13 @@ fn roundtrip<F: Fl + serde::Serialize + serde::de::DeserializeOwned>(reg: &Reg<F
             // and through a positional format; the state that continues the history is the one restored from it
             let toks = crate::poswire::to_tokens($s).map_err(|e| format!("positional serialize: {}", e))?;
             let pback = crate::poswire::from_tokens(&toks).map_err(|e| format!("positional deserialize: {}", e))?;
-            let eq = &back == $s && &pback == $s;
+            // ... and through a self-describing tree whose maps are SORTED BY KEY (serde_json::Value without preserve_order;
+            // what toml / BTreeMap-backed formats do): fields arrive in an order that is not the declaration order
+            let tree = serde_json::to_value($s).map_err(|e| format!("tree serialize: {}", e))?;
+            let tback = serde_json::from_value(tree).map_err(|e| format!("tree deserialize: {}", e))?;
+            // value equality and field-by-field identity (the rendering of every restored copy is that of the original)
+            let same = |x: &_| serde_json::to_string(x).map(|t| t == js).unwrap_or(false);
+            let eq = &back == $s && &pback == $s && &tback == $s && same(&back) && same(&pback) && same(&tback);
             let back = if eq { pback } else { back };
             Ok(($variant(back), eq, js))
         }};
@@ -538,13 +544,18 @@ fn exec_program<F: Fl + SerdeBound>(case: &Value, skip_roundtrip: bool) -> Vec<V
             let (ca, cb) = regs[i].count();
             let mut sa = books[i].0.clone(); sa.sort();
             let mut sb = books[i].1.clone(); sb.sort();
-            let breg = Reg::<F>::batch(fl, &sa, &sb);
-            let (ob, vb) = breg.observe();
+            // the batch computation on what the register claims to hold (resolved from its observable count).  A register that
+            // absorbed an inadmissible value makes that computation impossible: data for the validator, not a harness failure
+            let breg = catch_unwind(AssertUnwindSafe(|| Reg::<F>::batch(fl, &sa, &sb)));
+            let (ob, vb, have_batch) = match &breg {
+                Ok(b) => { let (o, v) = b.observe(); (o, v, true) }
+                Err(_) => ("unavailable: the books of this register hold a value its flavour rejects".to_string(), vec![], false),
+            };
             let mut rv = json!({"r": i + 1, "bag": rle(sa), "bagb": rle(sb), "ca": ca, "cb": cb,
                                 "obs": o1, "obs2": o2, "batch": ob});
             // the values themselves are logged where the renderings differ (and in tolerance mode): the property asks for
             // equality with the batch result UP TO ROUNDING, which the validator then decides on the numbers
-            if tol || o1 != ob { rv["obsv"] = Value::Array(v1); rv["batchv"] = Value::Array(vb); }
+            if have_batch && (tol || o1 != ob) { rv["obsv"] = Value::Array(v1); rv["batchv"] = Value::Array(vb); }
             regv.push(rv);
         }
         evs.push(json!({"op": "accum.step", "fl": fl, "ty": F::tyname(), "k": k + 1, "first": k == 0,
